@@ -40,6 +40,23 @@ NEEDS = {
     'S4-C15': "upwindMean on a float variable whose ghost value differs from the adjacent interior value, then any later use of the ghost cells",
     'S4-C16': "an initial-value array with singleton axes, or any 2-D / 3-D grid with one cell along some but not all axes",
     'S4-C17': "same change as S4-C08, seen through unit rescaling (whole-number data are an int array in one unit system, floats in another)",
+    'S5-C01': "Grid2D, x-periodic, non-uniform x with different first/last cell widths and a y end-cell ratio different from the x one, diffusion",
+    'S5-C02': "CylindricalGrid2D, central convectionTerm, non-zero axial velocity, non-uniform z spacing",
+    'S5-C03': "two variables sharing one BoundaryConditions object (or BCs changed with clean flags), then an explicit apply_BCs(): the cached boundary rows stay stale",
+    'S5-C04': "Grid2D / CylindricalGrid2D with y (z) periodicity requested through a flag on exactly one face",
+    'S5-C05': "Grid3D, negative z velocity on the front boundary face, last y and z cells of different width",
+    'S5-C06': "Grid3D, upwind scheme, non-uniform z with different first/last z cells, negative w on the z-max faces",
+    'S5-C07': "CylindricalGrid2D, non-uniform z with different first/last cells, inflow through the top boundary",
+    'S5-C08': "Grid3D, z periodicity set through a single flag (back xor front), data varying along z",
+    'S5-C09': "periodic switched on, a solve, periodic switched off on every periodic face of that direction, a solve - with no other edit in between",
+    'S5-C10': "a 3-D grid built with the (N, L) constructor and L2/N2 != L3/N3",
+    'S5-C11': "a 3-D grid class, non-uniform spacing along the second axis, geometricMean",
+    'S5-C12': "two CellVariables on one BoundaryConditions object, BCs changed between steps, the other variable solved first, then .value assigned before solvePDE",
+    'S5-C13': "the VanLeer limiter at exactly r == -1.0 (fields with exactly opposite successive differences)",
+    'S5-C14': "FaceVariable >= FaceVariable on a 2-D or 3-D grid on faces where both operands are exactly equal",
+    'S5-C15': "a BC edit or in-place value edit followed by gradientTerm before any apply_BCs / solvePDE",
+    'S5-C16': "a radial grid class, the periodic flag set on left/right after the variable exists, and a repeated request after the first ValueError",
+    'S5-C17': "SphericalGrid1D, convectionUpwindTerm called through the dispatcher with a u_upwind whose sign differs from u",
     'S2-C16': "assigning FaceVariable.yvalue on CylindricalGrid2D / PolarGrid2D / 3-D curvilinear grids (subclasses of Grid2D/Grid3D) where the label is not documented",
 }
 
@@ -62,6 +79,11 @@ BEFORE = {
     'S4-C09': "no check reported it; C09.P8u added (update_value / value setter leave no shared storage)",
     'S4-C12': "no check reported it: the symbolic RHS was not a storage object and reshape results were not views; reshape/ravel results now share storage with their source for effect tracking, C12.T3 / C01.R8 cover the RHS vector",
     'S4-C16': "exit 2 (np.squeeze outside the subset); modelled; C16.L4 gets singleton-axis shapes, C16.L9 the documented array forms on meshes with one cell along some axes",
+    'S5-C03': "no check reported it (C09.P5 only entered apply_BCs with both flags raised); P5 now covers every flag valuation with a stale cache",
+    'S5-C12': "as S5-C03 (same change)",
+    'S5-C09': "no check reported it (C09.P1 only switched periodic on); P1 now also switches it off",
+    'S5-C15': "no check reported it (C15 ran every builder on clean variables only); Z1 dirty-argument pass added",
+    'S5-C16': "no check reported it (the flags were only inspected after normal returns); C16.L3 repeated-refusal scenario added",
     'S-C04': "C04 silent in round 1 (caught by C09 only); C04.S8 added",
     'S-C15': "C05 exit 2 in round 1 (case-split budget); recursive case split",
 }
